@@ -866,14 +866,14 @@ func (v *FV) applyLemma(env *ExprEnv, text string) (t Term, err error) {
 }
 
 
-var reachName = regexp.MustCompile(`^f\d+_(c|nc|R)_\d+!\d+$`)
-var reachTok = regexp.MustCompile(`f\d+_(c|nc|R)_\d+!\d+`)
+var reachName = regexp.MustCompile(`^(f\d+_(c|nc|R)_\d+|f\d+_Rret|dcond|dskip)!\d+$`)
+var reachTok = regexp.MustCompile(`(f\d+_(c|nc|R)_\d+|f\d+_Rret|dcond|dskip)!\d+`)
 
 // reachAncestors: the reach conditions that the given reach condition is built from.
 func reachAncestors(script []string, reach Term) map[string]bool {
 	defs := map[string][]string{}
 	for _, l := range script {
-		if strings.HasPrefix(l, "(define-fun f") {
+		if strings.HasPrefix(l, "(define-fun f") || strings.HasPrefix(l, "(define-fun d") {
 			f := strings.Fields(l)
 			if len(f) > 1 && reachName.MatchString(f[1]) {
 				defs[f[1]] = reachTok.FindAllString(l[len("(define-fun ")+len(f[1]):], -1)
